@@ -526,6 +526,37 @@ def oracle_tabmemo(cases, impl):
     return out
 
 
+# ---------------------------------------------------------------- C05 / C13 on the helper: the advance n_advance returns is optimal
+def oracle_nadv(cases, impl):
+    """n_advance(n, s) = a is a first advance of a step-optimal schedule iff
+    E(n, s) = a + E(a, s) + E(n - a, s - 1), E = the Griewank-Walther closed form (s = min(s, n - 1); s = 1: a = n - 1)."""
+    out = []
+    for line in cases:
+        if not line.startswith("V fn.n_advance"):
+            continue
+        info = case_info(line)
+        tr = impl.get(info["cid"])
+        if not tr or tr[0].startswith("EXC") or tr[0].startswith("?"):
+            continue
+        n, s = int(info["args"][0]), int(info["args"][1])
+        if n < 2 or s < 1:
+            continue
+        try:
+            a = int(tr[0])
+        except ValueError:
+            continue
+        s = min(s, n - 1)
+        if s == 1:
+            ok = a == n - 1
+        else:
+            ok = 1 <= a <= n - 1 and gw_extra(n, s) == a + gw_extra(a, s) + gw_extra(n - a, s - 1)
+        if not ok:
+            for pid in ("C05", "C13"):
+                out.append(fail(pid, info, line, "n_advance(%d, %s, %s) = %d is not the first advance of a step-optimal schedule (E(n,s) = %d)"
+                                % (n, info["args"][1], info["args"][2], a, gw_extra(n, s)), "advance"))
+    return out
+
+
 # ---------------------------------------------------------------- C02, pass structure read directly off the stream
 def oracle_passes(cases, impl):
     """C02 as stated, independent of the executor's exhaustion bookkeeping: after EndForward, every EndReverse closes an
@@ -635,6 +666,7 @@ def all_findings(cases, impl):
     f += oracle_r_hist(cases, impl)
     f += oracle_mxrr(cases, impl)
     f += oracle_tabmemo(cases, impl)
+    f += oracle_nadv(cases, impl)
     return f
 
 
